@@ -70,6 +70,7 @@ Definition call_sig (c : call) : list N :=
   | CGetTags s _ => [4; s]
   | CGetBulk s ks => [5; s; len ks]
   | CQuery s _ v => [6; s; obit v]
+  | CQuerySort s _ v _ => [11; s; obit v]
   | CDelete s _ => [7; s]
   | CBatch s ops => 8 :: s :: flat_map (fun o => [obit (snd (fst o)); len (snd o)]) ops
   | CFlush s => [9; s]
@@ -91,7 +92,7 @@ Fixpoint check_from (c : fcfg) (s : st) (e : env) (steps : list (xop * out * lis
   match steps with
   | [] => true
   | (o, x, l) :: r =>
-      let '(s1, y, m) := xstep c s o in
+      let '(s1, y, m) := xstep Fixed c s o in
       C11.Corr.out_eqb x y &&
       match csmatch m l e with Some e1 => check_from c s1 e1 r | None => false end
   end.
